@@ -20,17 +20,18 @@ import vcheck as V
 import _place as P
 
 GUARDS = ["G_OnePending", "G_Quorum", "G_Reachable", "G_SyncAdd", "G_NoAddPending", "G_FreshID",
-          "G_Distinct", "G_LeftRaft", "G_CAS", "G_Surplus"]
+          "G_Distinct", "G_LeftRaft", "G_CAS", "G_Surplus", "G_Unlisted"]
 TEMPLATE = os.path.join(V.VERIF, "spec", "MC_ZCoord.cfg")
 
 
 def make_cfg(ctx, name, N, R, max_epoch, max_id, off=None, count=False, max_down=64, max_unsynced=64, init_k=None,
-             parts=1, writers=1, rset=None):
+             parts=1, writers=1, rset=None, rm=None):
     """One cfg from the template spec/MC_ZCoord.cfg (constants replaced textually)."""
     c = open(TEMPLATE).read()
     sub = {"N": N, "R": R, "InitK": init_k or R, "Parts": "{%s}" % ",".join(str(i) for i in range(parts)),
            "Writers": "{%s}" % ",".join(str(i + 1) for i in range(writers)),
-           "RSet": "{%s}" % ",".join(str(x) for x in sorted(set(rset or [R]) | {R})), "MaxEpoch": max_epoch, "MaxID": max_id, "MaxDown": max_down, "MaxUnsynced": max_unsynced,
+           "RSet": "{%s}" % ",".join(str(x) for x in sorted(set(rset or [R]) | {R})),
+           "RmNodes": "{%s}" % ",".join(str(x) for x in (rm or [])), "MaxEpoch": max_epoch, "MaxID": max_id, "MaxDown": max_down, "MaxUnsynced": max_unsynced,
            "CountCalls": "TRUE" if count else "FALSE"}
     for k, v in sub.items():
         c, n = re.subn(r"(?m)^  %s = \S+$" % k, "  %s = %s" % (k, v), c)
@@ -83,7 +84,7 @@ def _replay(ctx, zr, job):
     K = job.get("K") or R
     cfg = make_cfg(ctx, "sim_%s.cfg" % name, N, R, 16, max(job.get("rset") or [R]) + 12, count=True, init_k=K,
                    max_down=1 if job["calm"] else 64, max_unsynced=1 if job["calm"] else 64,
-                   parts=job.get("P", 1), writers=job.get("W", 1), rset=job.get("rset"))
+                   parts=job.get("P", 1), writers=job.get("W", 1), rset=job.get("rset"), rm=job.get("rm"))
     simdir = ctx.sub("sim-" + name)
     r = V.tlc(ctx, "MC_ZCoord", os.path.basename(cfg), workers=1, timeout=300,
               simulate="file=%s/sim,num=%d" % (simdir, job["num"]), depth=job["depth"], seed=job["seed"],
@@ -320,7 +321,11 @@ def run(ctx):
         jobs.append((nm, make_cfg(ctx, nm.replace("-", "_") + ".cfg", N, R, E, R + 3, init_k=K), None))
     # grown scope (thorough tier): two partitions sharing the nodes, two coordinators (PD leader
     # fail-over with a stale old leader), replication factor changed while migrations are in flight
+    # a data node is taken out of the cluster (MarkNodeRemoving / MoveOff / NodeRemovable)
+    jobs.append(("mc-rmnode-N4-R2", make_cfg(ctx, "mc_rmnode_N4_R2.cfg", N=4, R=2, max_epoch=5, max_id=5, rm=[2]), None))
     grown = [] if quick else [
+        ("mc-rmnode-N4-R3", dict(N=4, R=3, max_epoch=5, max_id=6, rm=[3])),
+        ("mc-rmnode-2parts-N4-R2", dict(N=4, R=2, max_epoch=3, max_id=5, parts=2, rm=[2])),
         ("mc-2parts-N3-R2", dict(N=3, R=2, max_epoch=3, max_id=5, parts=2)),
         ("mc-2writers-N4-R3", dict(N=4, R=3, max_epoch=4, max_id=6, writers=2)),
         ("mc-factor-3to2-N4", dict(N=4, R=3, max_epoch=5, max_id=6, rset=[2, 3])),
@@ -330,7 +335,8 @@ def run(ctx):
     for nm, kw in grown:
         jobs.append((nm, make_cfg(ctx, nm.replace("-", "_") + ".cfg", **kw), None))
     for g in GUARDS:
-        jobs.append(("mut-" + g, make_cfg(ctx, "mut_%s.cfg" % g, mut_inst[0], mut_inst[1], mut_inst[2], mut_inst[1] + 3, off=g), g))
+        jobs.append(("mut-" + g, make_cfg(ctx, "mut_%s.cfg" % g, mut_inst[0], mut_inst[1], mut_inst[2], mut_inst[1] + 3, off=g,
+                                          rm=[2] if g == "G_Unlisted" else None), g))
 
     cov_inst = "mc-N4-R3" if quick else "mc-N4-R2"      # per-action coverage is collected on this instance
 
@@ -394,8 +400,20 @@ def run(ctx):
                 rjobs.append(dict(name="N%dR%dK%d%s%d" % (N, R, K, "c" if calm else "w", c), N=N, R=R, K=K,
                                   num=num // chunks // 2 + 1,
                                   depth=depth, calm=calm, seed=ctx.seed * 100 + c))
+    # node removal (MarkNodeAsRemoving + processRemovingNodes); without -balance the driver only calls a round
+    # when no replica needs the add-and-wait path (5 s sleeps)
+    for i, (N, R, P_, rm, num) in enumerate([(4, 2, 1, [2], 80), (5, 3, 1, [1, 3], 80)] if quick else
+                                            [(4, 2, 1, [2], 400), (5, 3, 1, [1, 3], 400), (4, 2, 2, [1], 300), (6, 4, 1, [2, 6], 300)]):
+        for calm in (True, False):
+            rjobs.append(dict(name="rmnode%d%s" % (i, "c" if calm else "w"), stage="node-removal", N=N, R=R, K=R, P=P_, rm=rm,
+                              num=num // 2, depth=depth, calm=calm, seed=ctx.seed * 100 + 90 + i))
     if not quick:
         sd = ctx.seed * 100
+        # the same with the real add-and-wait path (5 s per replica moved): few, short behaviours
+        for i in range(8):
+            N, R, P_ = [(4, 2, 1), (4, 2, 2), (5, 3, 1), (5, 3, 2)][i % 4]
+            rjobs.append(dict(name="rmslow%d" % i, stage="node-removal-slow", N=N, R=R, K=R, P=P_, rm=[1, 2], num=3, depth=24,
+                              calm=True, seed=sd + 95 + i, extra=["-balance"]))
         for i, (N, R, K, P_, num) in enumerate([(4, 2, 2, 2, 300), (4, 3, 3, 2, 300), (5, 3, 2, 3, 200), (6, 4, 3, 2, 200)]):
             for calm in (True, False):
                 rjobs.append(dict(name="multi%d%s" % (i, "c" if calm else "w"), stage="multi-partition", N=N, R=R, K=K, P=P_,
@@ -438,7 +456,9 @@ def run(ctx):
         checker_cmd="tlc -config ZCoordTrace.cfg ZCoordTrace (ZR_TRACE=<trace> ZR_R=<R>)",
     )
     V.write_evidence(ctx, "model_checking", cov, assumptions=[
-        "quick tier: one partition, one coordinator, fixed factor.  Thorough tier adds: 2-3 partitions of one "
+        "quick tier: one partition, one coordinator, fixed factor (+ a data node taken out of the cluster through the "
+        "real MarkNodeAsRemoving / processRemovingNodes, rounds that would need the 5 s add-and-wait path skipped).  "
+        "Thorough tier adds: the add-and-wait path of node removal on a few short behaviours, 2-3 partitions of one "
         "namespace sharing the nodes (initial layout from the real v2 placement over all nodes but the last), two "
         "coordinator objects over one register (both keep fresh node tables; staleness = their record copies), "
         "replication factor changed through the real ChangeNamespaceMetaParam (the coordinators re-read their "
